@@ -18,17 +18,17 @@ CLAIMED = {
  "C06": C("Seeded search over solicitation/tick timelines (bounded-exhaustive grid corpus of <=3 (quick) / <=5 (thorough) solicitations from :: around the 3 s boundary x 3 interval settings, then random bursts, link flaps, transmit latency) against the real Advertiser on a fake clock; the spacing and served-within-3s rules are evaluated on the recorded WriteTo history.", "6 (C06)"),
  "C07": C("Seeded search over solicitation sequences (sources, repeats, bursts beyond the request queue, duplicates, timer-tick neighbourhoods, unicast_only on/off) with separate fault-free, transmit-latency, transmit-error and link-flap populations; unicast RAs are matched one-to-one with solicitations per destination and dial generation inside the 500 ms window, destinations and content are checked, and the sent/received/error counters are reconstructed from the metric update stream and compared with the transmissions actually made.", "6 (C07)"),
  "C08": C("The schedule space is the point: seeded stop instants (SIGTERM/SIGINT/SIGHUP) relative to pending solicited/periodic work, with send workers parked by the simulator in their forwarding read or inside WriteTo across the stop and released before, shortly after or long after it; exactly-one-final-RA, final-is-last, no-final-on-reload, nothing-after-return, clean result and promptness are judged on the ordered WriteTo/seam history.", "6 (C08)"),
- "C09": C("Complete single-message table (every hop limit 0..254 x RS/RA x advertiser/monitor) followed by seeded runs of 1..12 consecutive invalid messages (beyond the 5-try receive budget) mixed with valid ones; per invalid message the effects of the listener goroutine up to its next read are inspected (no RA, no consistency check, no hook, no metric other than the invalid counter), the invalid counter is reconciled by type, and liveness is judged afterwards: task still running, no re-dial, every delivered packet read, following valid solicitations answered.", "6 (C09)"),
+ "C09": C("Complete single-message table (every hop limit 0..254 x RS/RA x advertiser/monitor) followed by seeded runs of 1..12 consecutive invalid messages (beyond the 5-try receive budget) mixed with valid ones; per invalid message the effects of the listener goroutine up to its next read are inspected (no RA, no consistency check, no hook, no metric other than the invalid counter), the invalid counter is reconciled by type, and liveness is judged afterwards: task still running, no re-dial, every delivered packet read, following valid solicitations answered; one population aims a recoverable receive error at the read right after a run of invalid messages (re-dial, then service continues).", "6 (C09)"),
  "C10": C("Part A (package system): the real Dialer.Dial/init loop driven through complete enumerations of dial/task outcome sequences to a stated depth plus cancellation points and seeded long sequences, against the documented policy (classification, 50 attempts, 250 ms steps to 3 s, prompt clean cancel). Part B (package corerad): one fault of every class injected at a seeded instant into a running advertiser/monitor with work pending, optionally followed by failing re-dials; together / classify / backoff / timeouts / halfalive rules on the seam history, and the task must serve solicitations again afterwards.", "6 (C10)", cat="fault_enumeration"),
  "C17": C("Whole daemon wired as in main() (shared plugin objects between advertisers, metrics collector and HTTP handler; real prometheus registry and promhttp): seeded requests for /metrics, /_/api/interfaces, /, /debug/pprof/ and unknown paths at lifecycle points (interface never initialised, re-initialising, advertising), debug.prometheus/pprof on/off, failing sysctl/rtnetlink reads, and a scrape parked inside a sysctl read while solicitations keep arriving; crash / block / routing rules on every request and a mirror rule comparing samples and the JSON rendering (every option kind present) with ramodel fed with the values that request read.", "6 (C17)"),
  "C18": C("Seeded message sequences on a monitoring interface (RAs with arbitrary headers and option lists incl. zero/infinite lifetimes, repeated prefixes and unknown options; RS/NS/NA; several senders; duplicates; receipt instants around whole seconds; both metrics backends); the metric updates the monitor makes while handling each message are compared as a multiset with a model computed from the decoded message and the fake receipt time.", "6 (C18)"),
- "C11": C("The real Dialer.Dial with the real setAutoconf/restore closures against a persistent simulated sysctl; enumerated outcome sequences x initial value x every (get,set,restore) fault combination on one generation, then seeded longer sequences with faults on several generations and cancellation anywhere; exactly-once cleanup, restore-to-previous, right value, tolerated vs reported errors. The body of Dialer.dial() (raw socket) is a stub whose composition is mirrored, stated in DESIGN.md.", "6 (C11)", cat="fault_enumeration"),
+ "C11": C("The real Dialer.Dial with the real setAutoconf/restore closures against a persistent simulated sysctl; enumerated outcome sequences x initial value x every (get,set,restore) fault combination on one generation, then seeded longer sequences with faults on several generations and cancellation anywhere; the sysctl may be changed by somebody else between two connections; exactly-once cleanup, restore to the value found when that connection was opened, tolerated vs reported errors. The body of Dialer.dial() (raw socket) is a stub whose composition is mirrored, stated in DESIGN.md.", "6 (C11)", cat="fault_enumeration"),
  "C12": C("Peer routers on the simulated link, the multi-party half of CoreRAD: a second real CoreRAD instance with the same configuration (twins must stay silent about each other), our own RA echoed from another address, peers drawn from a small value domain independently of our configuration (absent/equal/different per field and option kind, both directions), and random larger RAs; every received RA crossed a real encode/decode. Counter increments, hook calls and log lines made while handling each peer RA are compared with an executable RFC 4861 6.2.7 model applied to (our RA at receipt according to ramodel, theirs as decoded).", "6 (C12), 5.3"),
  "C13": C("Address tables are environment nondeterminism: enumerated subsets (size <=2 quick / <=4 thorough) x all permutations of a 17-address pool, then seeded larger tables that change, are permuted, duplicated, emptied or fail while the daemon runs; each transmitted RA's prefix options are compared with the model applied to the listing that build was given.", "6 (C13-C15)"),
  "C14": C("Same populations as C13; the first RDNSS server of every transmitted RA is compared with the documented ranking applied to the listing that build was given; RAs transmitted although no address was eligible or the listing failed are violations.", "6 (C13-C15)"),
  "C15": C("Loopback route tables: enumerated subsets (size <=2 quick / <=4 thorough) x all permutations of a 13-route pool (nested prefixes with equal and different base, /128, ::/0, duplicates across two loopback interfaces), then seeded changing / permuted / duplicated / failing dumps; route options of every transmitted RA are compared with the model.", "6 (C13-C15)"),
  "C16": C("Real daemon on the bubble clock with solicitations placed around every deprecation deadline, plus the plugins' TimeNow seam driven by a seeded jumping clock (forward jumps, repeats, readings before the epoch); value, monotonicity, zero-after-deadline, preferred<=valid and constant rules on every RA.", "6 (C16)"),
- "C19": C("A real Watcher with a simulated rtnetlink event source (events pass through the real process()): the complete single-event table (127 masks x 7 states x matching/other interface), then seeded interleavings of Subscribe / emit batches / partial drains / end of watch (nil, error, cancellation) / subscribe-after-end / second Watch, with undrained subscribers; each subscriber channel is compared operation by operation with a bounded-FIFO model, the watcher must be back at quiescence after every emit (never blocks), channels are closed exactly once. Auxiliary -race run of the same mix on real goroutines (outside the technique).", "6 (C19)"),
+ "C19": C("A real Watcher with a simulated rtnetlink event source (events pass through the real process()): the complete single-event table (127 masks x 7 states x matching/other interface), then seeded interleavings of Subscribe / emit batches / partial drains / end of watch (nil, error, cancellation) / subscribe-after-end / second Watch, with undrained subscribers; each subscriber channel is compared operation by operation with a bounded-FIFO model, the watcher must be back at quiescence after every emit (never blocks), channels are closed exactly once. Concurrent callers: the package is compiled from a yield-instrumented copy (tools/yieldinst: before every lock operation, send, select, close, and in every loop body), groups of Subscribe / notify / end-of-watch calls run under a plan-chosen schedule, deadlocks are detected, and the outcome is checked for linearizability against the model by trying every admissible sequential order. Auxiliary -race run of the same mix on real goroutines (outside the technique).", "6 (C19)"),
  "C20": C("The real Server.BuildTasks and Serve: task lists for configurations mixing advertise/monitor/neither interfaces, name groups and debug on/off against the model; supervision over scripted tasks (fail at an instant, return nil early, slow to stop, never ready, failing in the same instant as the signal) and real advertisers/monitors with SIGTERM/SIGINT/SIGHUP at seeded instants, the signal task parked in its log write between recording the signal and cancelling; cancel-all, wait-all, first-error, clean-signal, terminate-flag-before-cancellation and readiness rules.", "6 (C20)"),
 }
 
